@@ -991,7 +991,7 @@ impl Check for C15 {
         }
     }
     fn rule(&self) -> String {
-        "each evaluation = one generated network (1-120 vertices, parallel edges, self loops, isolated vertices, hubs of degree >4, vertex file with shuffled / extra columns, explicit or scanned counts, every file plain or gzip, sometimes a gzip file without the .gz suffix; LF, CRLF or no final newline) written to the simulated disk and loaded through DefaultGraphBuilder::build and SpeedTraversalEngine::new while the simulator injects faults at read() calls: family legal = short reads down to 1 byte + EINTR at a per-run rate up to 0.9 (graph must be exact), family hard = one EIO (one-shot or sticky) or one truncated gzip stream (load must fail or be exact; never hang, panic or differ silently), family nofault = none; family enumerate = worlds of 1-7 vertices shared by groups of 224 consecutive runs of the family, in which every read index 0..31 is faulted with each of seven fault kinds (1-byte short read, 3-byte short read, EINTR, one-shot EIO, sticky EIO, two flipped bits on gzip files): a complete enumeration of single-fault positions for every world whose load needs at most 32 reads and whose group is completed within the run's budget (reach probes enumerated_positions_fired / enumerated_positions_beyond_last_read count both sides). In the other families the position of the faulted read is drawn per run. non-trivial = at least one edge; distinct = distinct (edge list, fault list). Since round 2/3: families app-legal / app-hard = the whole application built from its files (edge/vertex lists, speed table, edge headings, road classes, geometries, vertex identifiers, matching-plugin copies) under read / open faults and compared with the fault-free build, plus row-alignment checks; hard faults also a failing open and one flipped bit in a gzip stream; one direct run in three regenerates the files at the same paths and loads again in the same process; vertex files with free-text extra columns (values starting with #, quoted commas / quotes / line breaks) and blank lines; one direct run in eighty loads a table of 150k-420k rows inside a pool of three simulated workers; gzip files of 1-3 members; family concurrent = two networks with the same file names in two directories loaded at the same time by two simulated threads Round 7: x coordinates written with some twenty digits a hair beyond the midpoint of two neighbouring f32 values (the listed coordinate is the f32 nearest to the decimal as written).".into()
+        "each evaluation = one generated network (1-120 vertices, parallel edges, self loops, isolated vertices, hubs of degree >4, vertex file with shuffled / extra columns, explicit or scanned counts, every file plain or gzip, sometimes a gzip file without the .gz suffix; LF, CRLF or no final newline) written to the simulated disk and loaded through DefaultGraphBuilder::build and SpeedTraversalEngine::new while the simulator injects faults at read() calls: family legal = short reads down to 1 byte + EINTR at a per-run rate up to 0.9 (graph must be exact), family hard = one EIO (one-shot or sticky) or one truncated gzip stream (load must fail or be exact; never hang, panic or differ silently), family nofault = none; family enumerate = worlds of 1-7 vertices shared by groups of 224 consecutive runs of the family, in which every read index 0..31 is faulted with each of seven fault kinds (1-byte short read, 3-byte short read, EINTR, one-shot EIO, sticky EIO, two flipped bits on gzip files): a complete enumeration of single-fault positions for every world whose load needs at most 32 reads and whose group is completed within the run's budget (reach probes enumerated_positions_fired / enumerated_positions_beyond_last_read count both sides). In the other families the position of the faulted read is drawn per run. non-trivial = at least one edge; distinct = distinct (edge list, fault list). Since round 2/3: families app-legal / app-hard = the whole application built from its files (edge/vertex lists, speed table, edge headings, road classes, geometries, vertex identifiers, matching-plugin copies) under read / open faults and compared with the fault-free build, plus row-alignment checks; hard faults also a failing open and one flipped bit in a gzip stream; one direct run in three regenerates the files at the same paths and loads again in the same process; vertex files with free-text extra columns (values starting with #, quoted commas / quotes / line breaks) and blank lines; one direct run in eighty loads a table of 150k-420k rows inside a pool of three simulated workers; gzip files of 1-3 members; family concurrent = two networks with the same file names in two directories loaded at the same time by two simulated threads Round 7: x coordinates written with some twenty digits a hair beyond the midpoint of two neighbouring f32 values (the listed coordinate is the f32 nearest to the decimal as written). Round 8: the application families read the graph through the binding accessors (CompassAppBindings::graph_*: origin, destination, distance in three units, outgoing and incoming edge ids of every vertex, one index beyond the last); the simulated disk keeps modification times - regenerated files are written now, moved into place with older times, or carry the time stamp of the file they replace; family app-rebuild = an application built from the first network stays alive, the files are replaced by another network under the same names, and two threads build an application each at the same time under a seeded schedule and short reads (both must show the second network, the old application the first).".into()
     }
     fn assumptions(&self) -> Vec<String> {
         vec![
